@@ -938,10 +938,20 @@ Proof.
 Qed.
 
 (* both decoding routes of the connectivity variable return the table unchanged *)
+Lemma c07_shift_zero (t : table) : map (map (fun x => if x =? FILL then x else x - 0)) t = t.
+Proof.
+  rewrite <- (map_id t) at 2. apply map_ext. intros r. rewrite <- (map_id r) at 2. apply map_ext.
+  intros x. destruct (x =? FILL); lia.
+Qed.
+
 Lemma c07_standardize_direct v t :
   cv_data v = C07_DInt t -> c07_dict_get c07_s_fillvalue (cv_attrs v) = Some (C07_ANum FILL) ->
+  c07_dict_get c07_s_start_index (cv_attrs v) = Some (C07_ANum 0) ->
   c07_standardize v = Some t.
-Proof. intros Hd Hf. unfold c07_standardize. rewrite Hd, Hf. rewrite Z.eqb_refl. reflexivity. Qed.
+Proof.
+  intros Hd Hf Hs. unfold c07_standardize. rewrite Hd, Hf, Hs. rewrite Z.eqb_refl.
+  rewrite c07_shift_zero. reflexivity.
+Qed.
 
 Lemma c07_standardize_file v t :
   cv_data v = C07_DInt t -> c07_dict_get c07_s_fillvalue (cv_attrs v) = Some (C07_ANum FILL) ->
@@ -1097,7 +1107,7 @@ Proof.
   unfold c07_float_data. rewrite Dlon, Dlat.
   destruct via_file.
   - rewrite (c07_standardize_file vf t Df Fillf Startf). reflexivity.
-  - rewrite (c07_standardize_direct vf t Df Fillf). reflexivity.
+  - rewrite (c07_standardize_direct vf t Df Fillf Startf). reflexivity.
 Qed.
 
 Example c07_ugrid_roundtrip_nonvacuous :
